@@ -62,6 +62,10 @@ def decl_lines(decl, first_opt=0, upto_opt=None):
         L.append("GRD 1")
     if decl.get("pos_metavar"):
         L.append("PMV %s" % hx(decl["pos_metavar"]))
+    if decl.get("moved"):
+        # the finished parser is move-constructed ("MOVE") or move-assigned into a used parser ("MOVEA")
+        # before it is used: it must behave like the original
+        L.append(decl["moved"])
     return L
 
 
